@@ -449,6 +449,8 @@ func run(c *vh.Ctx) error {
 			}
 		}
 	}
+	// ---- end-to-end tier: the real fetch loop with scripted peers ---------------------------------------
+	runLoopTier(c)
 	res.Extra["ops_compared"] = totalOps
 	keys := make([]string, 0, len(res.Distribution))
 	for k := range res.Distribution {
@@ -465,6 +467,21 @@ func run(c *vh.Ctx) error {
 func replayWith(drv *vh.Driver, body, comments []string) (bool, string) {
 	if len(body) == 0 {
 		return false, "empty replay"
+	}
+	if strings.HasPrefix(body[0], "LOOP ") {
+		sc, err := parseLoopScenario(body[0])
+		if err != nil {
+			return false, err.Error()
+		}
+		path := ""
+		if drv != nil {
+			path = drv.Path
+		}
+		kind, what, _ := runLoopScenario(sc, path)
+		if kind != "" {
+			return true, kind + ": " + what
+		}
+		return false, "fetch loop scenario completes: every block reaches the importer once, in order, body-matched"
 	}
 	p, err := parseParams(body[0])
 	if err != nil {
